@@ -61,6 +61,11 @@ where
             if vc.corrupt.kind == "aux" {
                 cols[vc.corrupt.col][vc.corrupt.row] += B::ONE;
             }
+            if vc.corrupt.kind == "auxscale" {
+                for v in cols[vc.corrupt.col].iter_mut() {
+                    *v = v.double();
+                }
+            }
             let aux = AuxTraceWithMetadata {
                 aux_trace: ColMatrix::new(cols),
                 aux_rand_elements: AuxRandElements::new(rands),
